@@ -21,31 +21,47 @@
 EXTENDS TraceBase, Per
 VARIABLES l, bad
 
-ExplainEnc(e) ==
+\* C03 and C04 are judged independently: a wrong encoding (C03) does not hide whether the library's decoder inverts the library's
+\* encoder (C04, first sentence), and vice versa.  Contents of 16384 units or more are outside C04's claim.
+RECURSIVE PerLong(_)
+PerLong(t) == CASE t.k = "octstr" -> Len(t.v) >= 16384
+                [] t.k = "bitstr" -> t.nbits >= 16384
+                [] t.k = "seqof" -> Len(t.v) >= 16384 \/ \E i \in 1..Len(t.v) : PerLong(t.v[i])
+                [] t.k = "seq" -> \E i \in 1..Len(t.fields) : t.fields[i].present /\ PerLong(t.fields[i].v)
+                [] t.k = "choice" -> PerLong(t.v)
+                [] t.k = "open" -> PerLong(t.v) \/ Len(PerEncode(t.v)) >= 16384
+                [] OTHER -> FALSE
+C03Verdict(e) ==
    IF ~PerValid(e.tree)
    THEN (IF e.err /\ ~e.panic THEN Ok ELSE No("C03: a value outside its constraints was put on the wire instead of being refused"))
-   ELSE LET exp == PerEncode(e.tree) IN
-        IF e.err THEN (IF PerInRoot(e.tree) /\ ~e.panic THEN No("C03: a value within its constraints was refused (error or panic)")
+   ELSE IF e.err THEN (IF PerInRoot(e.tree) /\ ~e.panic THEN No("C03: a value within its constraints was refused (error or panic)")
                        ELSE IF e.panic THEN No("C03: the encoder panicked") ELSE Ok)   \* extension values may be refused
-        ELSE IF e.bytes # exp THEN No("C03: encoding differs from X.691: expected " \o Str(exp) \o " got " \o Str(e.bytes))
-        ELSE IF ~e.dec.done \/ e.dec.err THEN No("C04: the encoding was not accepted by the decoder")
-        ELSE IF PerNorm(e.dec.tree) # PerNorm(e.tree) THEN No("C04: decoded value differs from the encoded value")
-        ELSE IF e.dec.reErr \/ e.dec.reBytes # e.bytes THEN No("C04: re-encoding the decoded value does not reproduce the bytes")
-        ELSE Ok
+   ELSE LET exp == PerEncode(e.tree) IN
+        IF e.bytes # exp THEN No("C03: encoding differs from X.691: expected " \o Str(exp) \o " got " \o Str(e.bytes)) ELSE Ok
+C04Verdict(e) ==
+   IF ~PerValid(e.tree) \/ e.err \/ PerLong(e.tree) THEN Ok
+   ELSE IF ~e.dec.done \/ e.dec.err THEN No("C04: the encoding was not accepted by the decoder")
+   ELSE IF PerNorm(e.dec.tree) # PerNorm(e.tree) THEN No("C04: decoded value differs from the encoded value")
+   ELSE IF e.dec.reErr \/ e.dec.reBytes # e.bytes THEN No("C04: re-encoding the decoded value does not reproduce the bytes")
+   ELSE Ok
 \* spec-encoded canonical bytes through the real decoder
 ExplainDec(e) ==
    FirstBad(<< <<~e.obs.err, "C04: canonical encoding from the reference encoder was rejected">>,
                <<PerNorm(e.obs.tree) = PerNorm(e.tree), "C04: decoded value differs from the value the reference encoder encoded">>,
                <<~e.obs.reErr /\ e.obs.reBytes = e.bytes, "C04: re-encoding does not reproduce the reference bytes">> >>)
-Explain(e) == CASE e.ev = "Enc" -> ExplainEnc(e)
-                [] e.ev = "Dec" -> ExplainDec(e)
+Explain(e) == CASE e.ev = "Dec" -> ExplainDec(e)
                 [] OTHER -> No("no action of the specification matches this event")
 
 Init == l = 1 /\ bad = 0
 Next == /\ l <= Len(Trace)
-        /\ LET e == Trace[l] r == Explain(e) IN
-             /\ Report(l, e, r)
-             /\ bad' = bad + (IF r.ok THEN 0 ELSE 1)
+        /\ LET e == Trace[l] IN
+             IF e.ev = "Enc"
+             THEN LET r3 == C03Verdict(e) r4 == C04Verdict(e) IN
+                  /\ Report(l, e, r3) /\ Report(l, e, r4)
+                  /\ bad' = bad + (IF r3.ok THEN 0 ELSE 1) + (IF r4.ok THEN 0 ELSE 1)
+             ELSE LET r == Explain(e) IN
+                  /\ Report(l, e, r)
+                  /\ bad' = bad + (IF r.ok THEN 0 ELSE 1)
         /\ l' = l + 1
 Consumed == TLCGet("stats").diameter - 1 = Len(Trace)
 =============================================================================
